@@ -130,7 +130,95 @@ let cmd_cellcycle line =
               Printf.printf "%s %s\n" (s_of_f vt) (s_of_f (cc_pressure_f libm (f 3) (f 4) (f 1) vt))
   | _ -> print_endline "?"
 
-let commands : (string * (string -> unit)) list ref = ref [ ("cellcycle", cmd_cellcycle); ("kernel", cmd_kernel); ("grid", cmd_grid); ("integrate", cmd_integrate) ]
+(* ---------------------------------------------------------------- C12 geometry *)
+let int_to_n i = if i = 0 then N0 else Npos (int_to_pos i)
+let n_to_int = function N0 -> 0 | Npos p -> pos_to_int p
+let parse_mesh (t : string array) (pos : int ref) =
+  let next () = let s = t.(!pos) in incr pos; s in
+  let nn = int_of_string (next ()) in
+  let nodes = List.init nn (fun _ -> let x = f_of_s (next ()) in let y = f_of_s (next ()) in let z = f_of_s (next ()) in { vx = x; vy = y; vz = z }) in
+  let nf = int_of_string (next ()) in
+  let faces = List.init nf (fun _ -> let a = int_of_string (next ()) in let b = int_of_string (next ()) in let c = int_of_string (next ()) in ((int_to_n a, int_to_n b), int_to_n c)) in
+  (nodes, faces)
+
+let cmd_geometry line =
+  let t = Array.of_list (toks line) in
+  let pos = ref 0 in
+  let (nodes, faces) = parse_mesh t pos in
+  let nn = List.length nodes in
+  let used = Array.make nn false in
+  List.iter (fun ((a, b), c) -> List.iter (fun x -> let i = n_to_int x in if i < nn then used.(i) <- true) [a; b; c]) faces;
+  (* remove_unused_nodes resets the position of unused nodes *)
+  let zero = Float64.of_float 0.0 in
+  let nodes = List.mapi (fun i p -> if used.(i) then p else { vx = zero; vy = zero; vz = zero }) nodes in
+  match geo_repair_f nodes faces with
+  | None -> print_endline "NOTCLOSED"
+  | Some fs ->
+    let tris = List.map (geo_tri_pos_f nodes) fs in
+    let area = geo_total_area_f tris in
+    let vol = geo_volume_f tris in
+    let ce = geo_centroid_f tris area in
+    let live = List.filteri (fun i _ -> used.(i)) nodes in
+    let b = Buffer.create 1024 in
+    Buffer.add_string b (Printf.sprintf "OK %s %s %s %s %s" (s_of_f vol) (s_of_f area) (s_of_f ce.vx) (s_of_f ce.vy) (s_of_f ce.vz));
+    (match geo_aabb_f live with
+     | Some (lo, hi) -> Buffer.add_string b (Printf.sprintf " %s %s %s %s %s %s" (s_of_f lo.vx) (s_of_f lo.vy) (s_of_f lo.vz) (s_of_f hi.vx) (s_of_f hi.vy) (s_of_f hi.vz))
+     | None -> Buffer.add_string b " inf inf inf -inf -inf -inf");
+    Buffer.add_string b (Printf.sprintf " ? ? ? %d %d |" (List.length live) (List.length fs));
+    List.iter2 (fun ((a, bb), c) tp ->
+      let n = geo_normal_f tp in
+      Buffer.add_string b (Printf.sprintf " %d %d %d %s %s %s %s" (n_to_int a) (n_to_int bb) (n_to_int c) (s_of_f n.vx) (s_of_f n.vy) (s_of_f n.vz) (s_of_f (geo_area_f tp)))) fs tris;
+    Buffer.add_string b " |";
+    Array.iter (fun u -> Buffer.add_string b (if u then " 1" else " 0")) used;
+    print_endline (Buffer.contents b)
+
+(* surface validity oracle on a dump: NL live ids... NF faces... *)
+let cmd_valid line =
+  let t = Array.of_list (toks line) in
+  let pos = ref 0 in
+  let next () = let s = t.(!pos) in incr pos; s in
+  let nl = int_of_string (next ()) in
+  let live = List.init nl (fun _ -> int_to_n (int_of_string (next ()))) in
+  let nf = int_of_string (next ()) in
+  let faces = List.init nf (fun _ -> let a = int_of_string (next ()) in let b = int_of_string (next ()) in let c = int_of_string (next ()) in ((int_to_n a, int_to_n b), int_to_n c)) in
+  Printf.printf "%d %d %d\n" (if mesh_valid_surface_b faces then 1 else 0) (if mesh_valid_dump_b live faces then 1 else 0) (if mesh_connected_b faces then 1 else 0)
+
+(* ---------------------------------------------------------------- C02 internal forces *)
+let m_pi = Float64.of_float 0x1.921fb54442d18p+1
+let dbl_eps = Float64.of_float epsilon_float
+let dbl_min = Float64.of_float min_float
+let cmd_forces line =
+  let t = Array.of_list (toks line) in
+  let pos = ref 0 in
+  let next () = let s = t.(!pos) in incr pos; s in
+  let nf () = f_of_s (next ()) and ni () = int_of_string (next ()) in
+  let term = ni () in let p = nf () in let ka = nf () in let iso = nf () in let kreg = nf () in
+  let nt = ni () in
+  let tb = List.init nt (fun _ -> let a = nf () in let b = nf () in (a, b)) in
+  let tensions = List.map fst tb and bends = List.map snd tb in
+  let nn = ni () in
+  let nodes = List.init nn (fun _ -> let x = nf () in let y = nf () in let z = nf () in { vx = x; vy = y; vz = z }) in
+  let nfc = ni () in
+  let faces = List.init nfc (fun _ -> let a = ni () in let b = ni () in let c = ni () in let ty = ni () in
+    frc_refresh_f nodes ((int_to_n a, int_to_n b), int_to_n c) (int_to_nat ty)) in
+  let ne = ni () in
+  let hinges = List.init ne (fun _ -> let a = ni () in let b = ni () in let f1 = ni () in let f2 = ni () in
+    { h_n1 = int_to_n a; h_n2 = int_to_n b; h_f1 = int_to_nat f1; h_f2 = int_to_nat f2 }) in
+  let tris = List.map (fun f -> geo_tri_pos_f nodes f.ff_tri) faces in
+  let vol = geo_volume_f tris and area = geo_total_area_f tris in
+  let zero = Float64.of_float 0.0 in
+  let f0 = List.map (fun _ -> { vx = zero; vy = zero; vz = zero }) nodes in
+  let do_p f = frc_pressure_f p faces f in
+  let do_t f = frc_tension_f libm nodes tensions ka iso vol area faces f in
+  let do_b f = frc_bending_f libm m_pi nodes bends faces hinges f in
+  let do_a f = frc_anglereg_f libm m_pi dbl_eps dbl_min nodes kreg faces f in
+  let f = match term with 0 -> do_p f0 | 1 -> do_t f0 | 2 -> do_b f0 | 3 -> do_a f0 | _ -> do_a (do_b (do_t (do_p f0))) in
+  let b = Buffer.create 1024 in
+  Buffer.add_string b (Printf.sprintf "%s %s |" (s_of_f vol) (s_of_f area));
+  List.iter (fun v -> Buffer.add_string b (Printf.sprintf " %s %s %s" (s_of_f v.vx) (s_of_f v.vy) (s_of_f v.vz))) f;
+  print_endline (Buffer.contents b)
+
+let commands : (string * (string -> unit)) list ref = ref [ ("forces", cmd_forces); ("geometry", cmd_geometry); ("valid", cmd_valid); ("cellcycle", cmd_cellcycle); ("kernel", cmd_kernel); ("grid", cmd_grid); ("integrate", cmd_integrate) ]
 
 let () =
   let cmd = Sys.argv.(1) in
